@@ -859,6 +859,40 @@ def main():
             ck.violation("correspondence cacheOutcomes vs the look-up at the top of encode_weight_and_scale_tensor broken",
                          {"correspondence": "wl_cache", "first_difference_at": k, "model": mo[max(0, k - 2):k + 3], "implementation": cache_real[max(0, k - 2):k + 3],
                           "request": cache_model_reqs[k]}, found_input=False)
+    # the transpose-convolution flip: ONE weight tensor object requested by a convolution stub and by a transpose-convolution
+    # stub, every other key field equal.  Lean answers whether the model key (built from the generated field list of
+    # WeightCompressionConfig) separates the two; the real keys must agree with that; the real answers go through CacheTransparent.
+    cF = gen_case({"acc": Accelerator.Ethos_U55_128})
+    cF.update(kind="conv", ifm="int8", wdt="int8", shape=(3, 2, 8, 16), dil=1, wzp=0, wscales=rand_scale32(), bias_dt="int32",
+              wvals=np.random.RandomState(11).randint(-127, 128, (3, 2, 8, 16)).astype(np.int8), bias=list(range(-8, 8)), bd=16,
+              offsets=[0, 16], okind="full", away=False, explicit=None, orig=None, mal=None)
+    archF, opF, wF, bF, kF, bcF = build(cF)
+    _a, opT, _w, bT, kT, bcT = build(dict(cF, kind="tconv"))
+    opT.set_input_tensor(wF, 1)
+    argsF, argsT = (archF, opF, wF, bF, kF, bcF, [0, 16]), (archF, opT, wF, bT, kT, bcT, [0, 16])
+    sep = ck.model(["wl_keysep %s %s" % (req_tokens(*argsF), req_tokens(*argsT))])[0]
+    real_equal = wcc_of(wF, opF, bcF, [0, 16], kF) == wcc_of(wF, opT, bcT, [0, 16], kT)
+    ck.count("flip_key_" + sep)
+    if (sep == "collide") != real_equal:
+        ck.violation(f"correspondence wccKey vs create_weight_compression_config broken on the transpose-convolution flip: model says {sep}, real keys equal={real_equal}",
+                     {"correspondence": "wl_keysep", "model": sep, "implementation_keys_equal": real_equal}, found_input=False)
+    cache.clear()
+    wc.encode_weight_and_scale_tensor(*argsF)
+    ansT = wc.encode_weight_and_scale_tensor(*argsT)
+    keepF = dict(cache)
+    cache.clear()
+    freshT = wc.encode_weight_and_scale_tensor(*argsT)
+    cache.clear()
+    cache.update(keepF)
+    tv = ck.model([c08_pipe.transparent_line(ansT[0], ansT[1], freshT[0])])[0]
+    if tv != "ok":
+        ck.violation(f"a transpose convolution requesting the filter a convolution has just encoded (same tensor, block depth 16, depth slices [0,16]) is answered with "
+                     f"the convolution's stream: {tv} (Lean: the cache keys {sep})",
+                     {"stub_scenario": "conv then tconv on one weight tensor [3,2,8,16]", "verdict": tv, "keys": sep,
+                      "replay": "testutil-style stubs: Op.Conv2DBias and Op.Conv2DBackpropInputSwitchedBias sharing one weight tensor object, "
+                                "encode_weight_and_scale_tensor(arch(ethos-u55-128), op, w, b, Kernel(2,3), block depth 16, [0,16]) for both in turn"},
+                     key="cache-key-omits-transpose-conv-flip" if sep == "collide" else None)
+    cache.clear()
     # scale-only tensors (weights-only hits): model correspondence with do_weights = False + Spec on the real tensor
     so_prep = ck.model([x[2] for x in scale_only])
     so_enc, so_real, so_spec = [], [], []
